@@ -586,5 +586,9 @@ def _submit_loop(executor_ref):
 
 
 def _submit_wait(event, timeout=None):
+    if timeout is not None:
+        # (bounded: a wait beyond threading.TIMEOUT_MAX raises OverflowError,
+        # which would end the thread; after waking up early it just waits again)
+        timeout = min(timeout, MAX_TIMEOUT)
     event.wait(timeout)
     event.clear()
